@@ -29,6 +29,8 @@ Expand1Viol(r) ==
   ELSE (IF r.changes = ExpectedChanges(r.op, r.old, r.new) THEN {} ELSE {"changes"})
        \cup (IF r.slices = ExpectedSlices(r.op, r.old, r.new) THEN {} ELSE {"slices"})
        \cup (IF r.reapplied = <<r.op>> THEN {} ELSE {"reapply"})
+       \* ... also when the capturing hook is handed over by reference
+       \cup (IF "reapplied_ref" \in DOMAIN r /\ r.reapplied_ref # <<r.op>> THEN {"reapply"} ELSE {})
 
 (* whole-diff iteration = concatenation of the per-op expansions, and each  *)
 (* per-op expansion is the expected one                                     *)
